@@ -13,27 +13,38 @@ Notation G c ws T := (Gen.G2 nt code c ws T T).
 Notation Tend := (Tend nt code).
 Notation at_ := (at_ code).
 Notation code_at := (code_at code).
-Notation Impl := (Impl nt code).
-Notation den := (den nt).
+Variable fu : nat.
+(* the statement for every smaller fuel (the outer induction of the theorem) *)
+Hypothesis IHfu : forall m, m < fu -> forall q, Lemmas.Impl nt code m q.
+Notation Impl := (Impl nt code fu).
+Notation den := (den1 nt (call_of nt fu)).
+Notation envOK := (Lemmas.envOK code).
 
 Ltac one lem := eapply steps_step; [eapply lem; eauto|].
 Ltac uncons H A := let H' := fresh "Hat" in destruct (code_at_cons _ _ _ _ H) as [A H']; clear H; rename H' into H.
 Ltac impl_intro :=
   intros sc cur base Hfr ce pc nv sn cq nv' sn' Hc Hat rho v st fk vs n n0 o ko g K K0 P HE Hn Hko Hoo Hlen HK1 HK2 HK0 c [S1 S2] HP;
-  pose proof (proj1 Hfr) as Hcur.
+  pose proof (frameOK_cur _ _ _ Hfr) as Hcur.
 Ltac cl := first [apply cle_refl | unfold cle; simpl; lia].
+(* a tail: either the denotation ran out of fuel (nothing to show) or the machine reached the base forks *)
+Tactic Notation "tend_inv" hyp(H) "as" simple_intropattern(p) :=
+  let EF := fresh "EF" in
+  destruct (Tend_inv _ _ _ _ _ _ H) as [EF|p];
+  [try (inversion EF; subst); try rewrite EF; try exact I|].
 
 Lemma Tend_weaken : forall c fin (P P' : list sv -> nat -> gx -> Prop) s,
   (forall a m g, P a m g -> P' a m g) -> Tend c fin P s -> Tend c fin P' s.
 Proof.
-  intros c fin P P' s H (e & vs & n & g & St & Ch & Le & HE & HP). exists e, vs, n, g. auto 6.
+  intros c fin P P' s H HT. destruct (Tend_inv _ _ _ _ _ _ HT) as [->|(e & vs & n & g & St & Ch & Le & HE & HP)]; [exact I|].
+  apply Tend_of. exists e, vs, n, g. auto 6.
 Qed.
 
 Lemma Tend_sub : forall cb c fin (P : list sv -> nat -> gx -> Prop) s,
   g_sc cb = g_sc c -> g_base cb = g_base c -> ce_lbls (g_ce cb) = ce_lbls (g_ce c) -> (forall i, g_own cb i -> g_own c i) ->
   Tend cb fin P s -> Tend c fin P s.
 Proof.
-  intros cb c fin P s H0 H1 H2 H3 (e & vs & n & g & St & Ch & Le & HE & HP). exists e, vs, n, g.
+  intros cb c fin P s H0 H1 H2 H3 HT. destruct (Tend_inv _ _ _ _ _ _ HT) as [->|(e & vs & n & g & St & Ch & Le & HE & HP)]; [exact I|].
+  apply Tend_of. exists e, vs, n, g.
   rewrite <- H1, <- H0. split; [auto|]. split; [eapply chg_mono; eauto|]. split; [auto|]. split; [|auto].
   eapply encR_lbls; eauto.
 Qed.
@@ -80,9 +91,12 @@ Proof. intros [|? ?] K K0 i H Hi; auto. Qed.
 Lemma wk_same : forall (fk' : list fork) (P : list sv -> nat -> gx -> Prop), wk fk' P P = P.
 Proof. intros [|? ?] P; reflexivity. Qed.
 
+Lemma G_fuel : forall c (P : list sv -> nat -> gx -> Prop) s, G c [] (Tend c (Some XFuel) P) s.
+Proof. intros c P s. exists s. split; [apply steps_refl|]. split; [apply chg_refl|]. split; [apply cle_refl|exact I]. Qed.
+
 Lemma impl_id : Impl QId.
 Proof.
-  impl_intro. simpl in Hc. inversion Hc; subst cq nv' sn'. cbn [Den.den fst snd].
+  impl_intro. simpl in Hc. inversion Hc; subst cq nv' sn'. cbn [Den.den1 fst snd].
   apply G_single with (vs3 := vs) (n3 := n) (o3 := o) (g3 := g).
   - subst c; simpl. rewrite Nat.add_0_r. constructor.
   - apply chg_refl.
@@ -93,7 +107,7 @@ Qed.
 
 Lemma impl_const : forall k, Impl (QConst k).
 Proof.
-  intros k. impl_intro. simpl in Hc. inversion Hc; subst cq nv' sn'. cbn [Den.den fst snd]. uncons Hat A1.
+  intros k. impl_intro. simpl in Hc. inversion Hc; subst cq nv' sn'. cbn [Den.den1 fst snd]. uncons Hat A1.
   apply G_single with (vs3 := vs) (n3 := n) (o3 := o) (g3 := g).
   - subst c; simpl. replace (pc + 1) with (S pc) by lia. one st_const. constructor.
   - apply chg_refl.
@@ -104,7 +118,7 @@ Qed.
 
 Lemma impl_empty : Impl QEmpty.
 Proof.
-  impl_intro. simpl in Hc. inversion Hc; subst cq nv' sn'. cbn [Den.den fst snd]. uncons Hat A1.
+  impl_intro. simpl in Hc. inversion Hc; subst cq nv' sn'. cbn [Den.den1 fst snd]. uncons Hat A1.
   eapply G_end with (vs3 := vs) (n3 := n) (g3 := g) (e := None).
   - subst c; simpl. one st_backtrack. constructor.
   - apply chg_refl.
@@ -115,7 +129,7 @@ Qed.
 
 Lemma impl_call0 : forall f, Impl (QCall0 f).
 Proof.
-  intros f. impl_intro. simpl in Hc. inversion Hc; subst cq nv' sn'. cbn [Den.den]. uncons Hat A1.
+  intros f. impl_intro. simpl in Hc. inversion Hc; subst cq nv' sn'. cbn [Den.den1]. uncons Hat A1.
   destruct (n_fn0 nt f v) as [w|e] eqn:E; cbn [of_sum fst snd].
   - apply G_single with (vs3 := vs) (n3 := n) (o3 := o) (g3 := g).
     + subst c; simpl. replace (pc + 1) with (S pc) by lia. one st_call0_ok. constructor.
@@ -133,10 +147,10 @@ Qed.
 
 Lemma impl_var : forall x, Impl (QVar x).
 Proof.
-  intros x. impl_intro. simpl in Hc. destruct (lookup x (ce_vars ce)) as [y|] eqn:Ex; [|discriminate].
+  intros x. impl_intro. simpl in Hc. destruct (lookup_cv x (ce_env ce)) as [y|] eqn:Ex; [|discriminate].
   inversion Hc; subst cq nv' sn'. uncons Hat A1. uncons Hat A2.
-  destruct HE as [Hv Hl]. destruct (Hv _ _ Ex) as (a & w & Ha & Hk & Hw & Hnth).
-  cbn [Den.den]. rewrite Hw. cbn [fst snd].
+  destruct (envOK_var _ _ _ _ _ _ _ _ HE Ex) as (a & w & Ha & Hk & Hw & Hnth).
+  cbn [Den.den1]. rewrite Hw. cbn [fst snd].
   apply G_single with (vs3 := vs) (n3 := n) (o3 := o) (g3 := g).
   - subst c; simpl. replace (pc + 2) with (S (S pc)) by lia. one st_pop. one st_load. constructor.
   - apply chg_refl.
@@ -150,7 +164,7 @@ Proof.
   intros l. impl_intro. simpl in Hc. destruct (lookup l (ce_lbls ce)) as [y|] eqn:Ex; [|discriminate].
   inversion Hc; subst cq nv' sn'. uncons Hat A1. uncons Hat A2. uncons Hat A3.
   destruct HE as [Hv Hl]. destruct (Hl _ _ Ex) as (a & id & Ha & Hk & Hnth & Hid).
-  cbn [Den.den fst snd].
+  cbn [Den.den1 fst snd].
   eapply G_end with (vs3 := vs) (n3 := n) (g3 := g).
   - subst c; simpl. one st_pop. one st_load. one st_break. constructor.
   - apply chg_refl.
@@ -245,7 +259,7 @@ Lemma impl_inner : forall q, Impl q -> forall sc cur base, frameOK sc cur base -
   let c1 := ctx_of sc (pc + length cq) st fk (base + nv) (base + nv') o o (fun i => base + nv <= i < base + nv' \/ kept sc ce i) (fun _ => False) ce n0 (ctr g) in
   G c1 (fst (den q rho v)) (Tend c1 (snd (den q rho v)) (fun _ _ _ => True)) (N sc pc (SV v :: st) fk vs n o g).
 Proof.
-  intros q IH sc cur base Hfr ce pc nv sn cq nv' sn' Ec Hat rho v st fk vs n n0 o g HE Hn Ho Hl c1. pose proof (proj1 Hfr) as Hcur.
+  intros q IH sc cur base Hfr ce pc nv sn cq nv' sn' Ec Hat rho v st fk vs n n0 o g HE Hn Ho Hl c1. pose proof (frameOK_cur _ _ _ Hfr) as Hcur.
   apply (IH sc cur base Hfr ce pc nv sn cq nv' sn' Ec Hat rho v st fk vs n n0 o o g _ _ (fun _ _ _ => True)); auto.
   - intros i [].
   - split; auto.
@@ -310,7 +324,7 @@ Lemma impl_body : forall q, Impl q -> forall sc cur base, frameOK sc cur base ->
     P vs n g ->
     G cx (fst (den q rhoq v)) (Tend cx (snd (den q rhoq v)) P) (N sc pcq (SV v :: g_st cx) (g_base cx) vs n o g).
 Proof.
-  intros q IH sc cur base Hfr ceq pcq nvq sn cq nvq' sn' Ec Hat cx rhoq v vs n o g P Hsc Hpc Hlb Hoff Hown Hk1 Hk2 Hk0 HE Hn Hko Hoo Hl Hct HP1 HP2 HP. pose proof (proj1 Hfr) as Hcur.
+  intros q IH sc cur base Hfr ceq pcq nvq sn cq nvq' sn' Ec Hat cx rhoq v vs n o g P Hsc Hpc Hlb Hoff Hown Hk1 Hk2 Hk0 HE Hn Hko Hoo Hl Hct HP1 HP2 HP. pose proof (frameOK_cur _ _ _ Hfr) as Hcur.
   pose proof (IH sc cur base Hfr ceq pcq nvq sn cq nvq' sn' Ec Hat rhoq v (g_st cx) (g_base cx) vs n (g_n0 cx) o (g_koff cx) g
                 (g_keep cx) (g_keep0 cx) P HE Hn Hko Hoo Hl Hk1 Hk2 Hk0) as H.
   cbv zeta in H.
@@ -319,7 +333,7 @@ Proof.
   - intros o3 a b Kp. exact Kp.
   - intros a b Kp. exact Kp.
   - simpl. lia.
-  - intros s0 (e & vs4 & n4 & g4 & St & Ch & Le & HE4 & HP4). exists e, vs4, n4, g4. simpl in *.
+  - intros s0 HT. tend_inv HT as (e & vs4 & n4 & g4 & St & Ch & Le & HE4 & HP4). apply Tend_of. exists e, vs4, n4, g4. simpl in *.
     split; [exact St|]. split; [exact (chg_mono _ _ _ _ Hown Ch)|]. split; [exact Le|]. split; [|exact HP4].
     rewrite Hsc. eapply encR_lbls; [|exact HE4]. auto.
   - split; [exact HP1|exact HP2].
@@ -371,7 +385,7 @@ Lemma std_body : forall q, Impl q -> forall sc cur base, frameOK sc cur base ->
       (N sc pcq (SV v' :: st) (fk' ++ fk) vs' n' o' x).
 Proof.
   intros q IH sc cur base Hfr ceq pcq nvq sn cq nvq' sn' Ec Hat pc' st fk lo hi o ko K K0 ce n0 t ownb0 ceb fk' o' x rhoq rho lim P Jg Jgf v' vs' n'
-         Hpc Hlb Hown HKq HK2 HK0 HEq Hko Hoo Hlo Hhi Hlim Hlimo S1' S2' Jg1 Jg2 Jgf1 Jgf2 JJ Hj Hg Ho' Ht cb. pose proof (proj1 Hfr) as Hcur.
+         Hpc Hlb Hown HKq HK2 HK0 HEq Hko Hoo Hlo Hhi Hlim Hlimo S1' S2' Jg1 Jg2 Jgf1 Jgf2 JJ Hj Hg Ho' Ht cb. pose proof (frameOK_cur _ _ _ Hfr) as Hcur.
   pose proof Hj as (E' & Hn' & Hl' & Hp').
   apply (impl_body q IH sc cur base Hfr ceq pcq nvq sn cq nvq' sn' Ec Hat cb rhoq v' vs' n' o' x); subst cb; simpl; auto; try lia.
   - intros i [Hi|Hi]; [left; apply Hown; auto|right; auto].
@@ -408,7 +422,7 @@ Proof.
   std_facts. pose proof (conj S1 S2) as HS. destruct (stable_sub _ _ _ _ _ _ _ _ _ _ _ _ _ _ HS) as [S1' S2'].
   subst c. rewrite app_length, Nat.add_assoc in *.
   pose proof (impl_inner a IHa sc cur base Hfr ce pc nv sn ca n1 s1 Ec Hata rho v st fk vs n n0 o g HE Hn ltac:(lia) Hlen) as HA.
-  cbv zeta in HA. cbn [Den.den].
+  cbv zeta in HA. cbn [Den.den1].
   refine (bind_std (den b rho) (fun _ => True) sc (pc + length ca) st (base + nv) (base + n1) (pc + length ca + length cb) st fk
             (base + nv) (base + n2) o ko K K0 ce n0 (ctr g) rho (base + nv) P (fun i => base + n1 <= i < base + n2) ce
             HS (le_n _) ltac:(lia) Hko Hoo (le_n _) ltac:(lia) Hkl HK1 HK2 HK0 _ eq_refl _ _ _ (den a rho v) _ HA _ (le_n _)).
@@ -487,12 +501,12 @@ Proof.
   assert (Htr : forall x vs' n' g', (fun _ _ gg => ctr g <= ctr gg) vs' n' g' -> okerr (g_n0 c) x -> exists vs4 n4 g4,
             steps (B (Some x) ([fx] ++ g_base c) vs' n' g') (B (Some x) (g_base c) vs4 n4 g4) /\ chg (g_own c) vs' vs4 /\ cle n' g' n4 g4).
   { intros x vs' n' g' _ _. exists vs', n', g'. split; [eapply fork_transparent; eauto|]. split; [apply chg_refl|cl]. }
-  cbn [Den.den]. destruct (den a rho v) as [wsa [xa|]] eqn:Ea; cbn [seq fst snd] in *.
+  cbn [Den.den1]. destruct (den a rho v) as [wsa [xa|]] eqn:Ea; cbn [seq fst snd] in *.
   - (* a raised: the fork propagates the error *)
     assert (Hm : forall z1, ctr g <= ctr (gx_of z1) -> Tend ca' (Some xa) Pa z1 -> Tend c (Some xa) P z1).
-    { intros z1 _ (e & vs4 & n4 & g4 & St4 & Ch4 & Le4 & HE4 & HP4).
+    { intros z1 _ HT. tend_inv HT as (e & vs4 & n4 & g4 & St4 & Ch4 & Le4 & HE4 & HP4).
       destruct (encR_some _ _ _ _ _ HE4) as (y & ->). simpl in St4, Ch4.
-      exists (Some y), vs4, n4, g4. split; [eapply steps_trans; [exact St4|eapply fork_transparent; eauto]|].
+      apply Tend_of. exists (Some y), vs4, n4, g4. split; [eapply steps_trans; [exact St4|eapply fork_transparent; eauto]|].
       split; [eapply chg_mono; [|exact Ch4]; simpl; intros; lia|]. split; [auto|]. split; [exact HE4|apply HP4]. }
     match type of HA with G2 _ ?w0 _ _ ?st0 => refine (G_ctx nt code ca' c [fx] (fun _ _ gg => ctr g <= ctr gg) _ _ _ _ eq_refl eq_refl eq_refl eq_refl _ _ _ (le_n _) (le_n _) (le_n _) Hfx _ _ Htr Hm Hm w0 st0 (le_n _) HA) end; auto;
       try (intros; unfold cle in *; simpl in *; lia).
@@ -501,7 +515,7 @@ Proof.
     apply G_app.
     assert (Hm : forall z1, ctr g <= ctr (gx_of z1) -> Tend ca' None Pa z1 ->
                    G c (fst (den b rho v)) (Tend c (snd (den b rho v)) P) z1).
-    { intros z1 HQz (e & vs4 & n4 & g4 & St4 & Ch4 & Le4 & HE4 & (E4 & Hn4 & Hl4 & HP4)). simpl in St4, Ch4, HE4. subst e.
+    { intros z1 HQz HT. tend_inv HT as (e & vs4 & n4 & g4 & St4 & Ch4 & Le4 & HE4 & (E4 & Hn4 & Hl4 & HP4)). simpl in St4, Ch4, HE4. subst e.
       eapply G_pre; [eapply steps_trans; [exact St4|one st_popfork; one bt_fork_none; constructor]
                     |eapply chg_mono; [|exact Ch4]; simpl; intros; lia|exact Le4|].
       pose proof (IHb sc cur base Hfr ce L n1 s1 cb n2 s2 Ec0 Hatb rho v st fk vs4 n4 n0 o ko g4 K K0 P) as HB. cbv zeta in HB.
@@ -526,9 +540,9 @@ Lemma G_iter_list : forall cx pcI o (P : list sv -> nat -> gx -> Prop), at_ pcI 
   G cx xs (Tend cx None P) (iter_state (g_sc cx) pcI xs (g_st cx) (g_base cx) vs n o g).
 Proof.
   intros cx pcI o P Hat Hpc Hoff HK0 HP. induction xs as [|x r IH]; intros vs n g Hp Hl Hc.
-  - simpl. eapply G_end; [apply steps_refl|apply chg_refl|cl|reflexivity|auto].
+  - cbn [iter_state]. eapply G_end; [apply steps_refl|apply chg_refl|cl|reflexivity|auto].
   - destruct r as [|y r].
-    + simpl. eapply G_single; [rewrite Hpc; apply steps_refl|apply chg_refl|cl|simpl; lia|].
+    + cbn [iter_state]. eapply G_single; [rewrite Hpc; apply steps_refl|apply chg_refl|cl|simpl; lia|].
       intros; eapply HP; eauto.
     + change (G cx (x :: y :: r) (Tend cx None P)
                 (N (g_sc cx) (S pcI) (SV x :: g_st cx) (F (g_sc cx) pcI (SIt (y :: r) :: g_st cx) o (ctr g) :: g_base cx) vs n o g)).
@@ -580,7 +594,7 @@ Lemma postfix_std : forall t (f : jv -> result) (i : instr), Impl t ->
     stable c P -> P vs n g ->
     G c (fst (bind (den t rho v) f)) (Tend c (snd (bind (den t rho v) f)) P) (N sc pc (SV v :: st) fk vs n o g).
 Proof.
-  intros t f i IHt Hbody sc cur base Hfr ce pc nv sn ct nv' sn' Ec Hat rho v st fk vs n n0 o ko g K K0 P HE Hn Hko Hoo Hlen HK1 HK2 HK0 c HS HP. pose proof (proj1 Hfr) as Hcur.
+  intros t f i IHt Hbody sc cur base Hfr ce pc nv sn ct nv' sn' Ec Hat rho v st fk vs n n0 o ko g K K0 P HE Hn Hko Hoo Hlen HK1 HK2 HK0 c HS HP. pose proof (frameOK_cur _ _ _ Hfr) as Hcur.
   destruct (code_at_app _ _ _ _ Hat) as [Hatt Hati]. uncons Hati Ai.
   destruct (comp_mono _ _ _ _ _ _ _ _ _ Ec) as [M1 _].
   std_facts. destruct (stable_sub _ _ _ _ _ _ _ _ _ _ _ _ _ _ HS) as [S1' S2'].
@@ -605,14 +619,14 @@ Lemma impl_iter : forall t, Impl t -> Impl (QIter t).
 Proof.
   intros t IHt. impl_intro. simpl in Hc.
   destruct (comp t ce cur pc nv sn) as [[[ct n1] s1]|] eqn:Ec; [|discriminate]. inversion Hc; subst cq nv' sn'. clear Hc.
-  cbn [Den.den]. eapply postfix_std; eauto. intros; apply G_iter; auto. split; auto.
+  cbn [Den.den1]. eapply postfix_std; eauto. intros; apply G_iter; auto. split; auto.
 Qed.
 
 Lemma impl_index : forall t k, Impl t -> Impl (QIndex t k).
 Proof.
   intros t k IHt. impl_intro. simpl in Hc.
   destruct (comp t ce cur pc nv sn) as [[[ct n1] s1]|] eqn:Ec; [|discriminate]. inversion Hc; subst cq nv' sn'. clear Hc.
-  cbn [Den.den]. eapply (postfix_std t (fun w => of_sum (n_index nt w k))); eauto.
+  cbn [Den.den1]. eapply (postfix_std t (fun w => of_sum (n_index nt w k))); eauto.
   intros; apply G_index; auto. split; auto.
 Qed.
 
@@ -632,9 +646,9 @@ Lemma if_cond : forall c, Impl c -> forall sc cur base, frameOK sc cur base ->
   let c1 := ctx_of sc (pc + length (if_pre cc)) st1 fk (base + nv) (base + n1) o o (fun i => base + nv <= i < base + n1 \/ kept sc ce i) (fun _ => False) ce n0 (ctr g) in
   G c1 (fst (den c rho v)) (Tend c1 (snd (den c rho v)) (fun _ _ _ => True)) (N sc pc (SV v :: st0) fk vs n o g).
 Proof.
-  intros c IHc sc cur base Hfr ce pc nv sn cc n1 s1 Ec i0 Hat rho v st0 st1 fk vs n n0 o g Hstep HE Hn Ho Hl c1. pose proof (proj1 Hfr) as Hcur.
+  intros c IHc sc cur base Hfr ce pc nv sn cc n1 s1 Ec i0 Hat rho v st0 st1 fk vs n n0 o g Hstep HE Hn Ho Hl c1. pose proof (frameOK_cur _ _ _ Hfr) as Hcur.
   destruct cc as [|i cc'].
-  - destruct (comp_nil _ _ _ _ _ _ _ _ Ec) as (E1 & -> & ->). rewrite (emptycode_den nt _ E1). cbn [fst snd].
+  - destruct (comp_nil _ _ _ _ _ _ _ _ Ec) as (E1 & -> & ->). rewrite (emptycode_den nt _ _ E1). cbn [fst snd].
     subst c1. simpl length. replace (pc + 1) with (S pc) by lia.
     eapply G_single; [eapply steps_step; [apply Hstep|apply steps_refl]|apply chg_refl|cl|simpl; lia|auto].
   - unfold if_pre in Hat, c1. simpl tl in Hat.
@@ -683,7 +697,7 @@ Proof.
   destruct (comp_mono _ _ _ _ _ _ _ _ _ Eb) as [M3 _].
   std_facts. pose proof (conj S1 S2) as HS. destruct (stable_sub _ _ _ _ _ _ _ _ _ _ _ _ _ _ HS) as [S1' S2'].
   assert (HJ0 : Jstd sc ce rho n0 (base + nv) o P vs n g) by (split; auto).
-  cbn [Den.den].
+  cbn [Den.den1].
   destruct Hcq as [(x & y & -> & -> & ->)| ->].
   - (* constant results: nop ... jumpifnot; push x; jump; push y *)
     change (Inop :: tl (if_pre cc) ++ [Ijumpifnot e; Ipush x; Ijump (e + 1); Ipush y])
@@ -699,7 +713,7 @@ Proof.
     pose proof (if_cond qc IHc sc cur base Hfr ce pc nv sn cc n1 s1 Ec Inop Hpre rho v st st fk vs n n0 o g) as HA. cbv zeta in HA.
     assert (A0 : at_ pc Inop) by (destruct (code_at_cons _ _ _ _ Hpre); auto).
     specialize (HA (fun f vs n o g => st_nop nt code sc pc _ f vs n o g A0) HE Hn ltac:(lia) Hlen). fold pcc in HA.
-    rewrite (comp_const1 nt _ _ _ _ _ _ _ _ _ Ea), (comp_const1 nt _ _ _ _ _ _ _ _ _ Eb).
+    rewrite (comp_const1 nt _ _ _ _ _ _ _ _ _ _ Ea), (comp_const1 nt _ _ _ _ _ _ _ _ _ _ Eb).
     refine (bind_std (fun w => if truthy w then ([x], None) else ([y], None)) (fun _ => True)
               sc pcc st (base + nv) (base + n1) (e + 1) st fk (base + nv) (base + nv') o ko K K0 ce n0 (ctr g) rho (base + nv) P
               (fun _ => False) ce HS (le_n _) ltac:(lia) Hko Hoo (le_n _) ltac:(lia) Hkl HK1 HK2 HK0 _ eq_refl _ _ _ _ _ HA _ (le_n _)).
@@ -797,16 +811,16 @@ Lemma bound_body : forall q, Impl q -> forall sc cur base, frameOK sc cur base -
     (forall (Kx : nat -> Prop) x y k h k' h', (forall i, K0 i -> Kx i) -> P x k h -> keepX Kx x y -> cle k h k' h' -> P y k' h') ->
     Jstd sc ce rho n0 lim o P vs' n' z -> nth_error vs' (base + k) = Some (SV w) -> o <= o' <= length vs' -> t <= ctr z ->
     let cb := cbody (ctx_of sc pc' st fk lo hi o ko K K0 ce n0 t) ownb0 ce fk' o' (ctr z) in
-    G cb (fst (den q ((x, w) :: rho) u)) (Tend cb (snd (den q ((x, w) :: rho) u))
+    G cb (fst (den q ((x, BV w) :: rho) u)) (Tend cb (snd (den q ((x, BV w) :: rho) u))
            (wk fk' (fun a m y => Jstd sc ce rho n0 lim o P a m y /\ True) (fun a m y => P a m y /\ True)))
       (N sc pcq (SV u :: st) (fk' ++ fk) vs' n' o' z).
 Proof.
   intros q IH sc cur base Hfr ce x k pcq sn cq nvq' sn' Ec Hat pc' st fk lo hi o ko K K0 n0 t ownb0 fk' o' z rho lim P w u vs' n'
-         Hpc Hown HK2 HK0 Hko Hoo Hlo Hhi Hlim Hlimo S1' S2' Hj Hnth Ho' Ht cb. pose proof (proj1 Hfr) as Hcur.
+         Hpc Hown HK2 HK0 Hko Hoo Hlo Hhi Hlim Hlimo S1' S2' Hj Hnth Ho' Ht cb. pose proof (frameOK_cur _ _ _ Hfr) as Hcur.
   destruct (comp_mono _ _ _ _ _ _ _ _ _ Ec) as [M _]. pose proof Hj as (E & Hn & Hl & Hp).
   subst cb.
   apply (std_body q IH sc cur base Hfr (add_var ce x (cur, k)) pcq (S k) sn cq nvq' sn' Ec Hat pc' st fk lo hi o ko K K0 ce n0 t ownb0 ce fk' o' z
-           ((x, w) :: rho) rho lim P (fun _ => True) (fun _ => True) u vs' n' Hpc eq_refl); auto; try lia.
+           ((x, BV w) :: rho) rho lim P (fun _ => True) (fun _ => True) u vs' n' Hpc eq_refl); auto; try lia.
   - intros i Hi. apply Hown. lia.
   - intros i Hi. destruct (kept_add_var _ _ _ _ _ _ (Hcur k) Hi) as [->|Hi']; [apply Hown; lia|auto].
   - eapply envOK_add_var; [eapply envOK_lim; [exact E|lia]|apply Hcur|lia|exact Hnth].
@@ -819,7 +833,7 @@ Proof.
   destruct (comp_mono _ _ _ _ _ _ _ _ _ Es) as [M1 _]. destruct (comp_mono _ _ _ _ _ _ _ _ _ Eb) as [M2 _].
   std_facts. pose proof (conj S1 S2) as HS. destruct (stable_sub _ _ _ _ _ _ _ _ _ _ _ _ _ _ HS) as [S1' S2'].
   assert (HJ0 : Jstd sc ce rho n0 (base + nv) o P vs n g) by (split; auto).
-  cbn [Den.den].
+  cbn [Den.den1].
   destruct (code_at_app _ _ _ _ Hat) as [Hpre Hatb].
   subst c. rewrite app_length, Nat.add_assoc in *.
   set (pcb := pc + length (bind_pre cs (cur, n1))) in *.
@@ -827,8 +841,8 @@ Proof.
   - (* the source emits no code: dup; nop; store x *)
     destruct (comp_nil _ _ _ _ _ _ _ _ Es) as (E1 & -> & ->). unfold bind_pre in Hpre. simpl in pcb.
     uncons Hpre A0. uncons Hpre A1. uncons Hpre A2.
-    rewrite (emptycode_den nt _ E1).
-    refine (bind_std (fun w => den qb ((x, w) :: rho) v) (fun _ => True) sc (S (S pc)) (SV v :: st) (base + nv) (base + nv)
+    rewrite (emptycode_den nt _ _ E1).
+    refine (bind_std (fun w => den qb ((x, BV w) :: rho) v) (fun _ => True) sc (S (S pc)) (SV v :: st) (base + nv) (base + nv)
               (pcb + length cb) st fk (base + nv) (base + nv') o ko K K0 ce n0 (ctr g) rho (base + nv) P
               (fun i => base + nv <= i < base + nv') ce HS (le_n _) ltac:(lia) Hko Hoo (le_n _) ltac:(lia) Hkl HK1 HK2 HK0 _ eq_refl _ _ _ ([v], None)
               (N sc pc (SV v :: st) fk vs n o g) _ _ (le_n _)).
@@ -856,7 +870,7 @@ Proof.
     { unfold pcb. rewrite Epre. simpl. rewrite app_length. simpl. lia. }
     pose proof (impl_inner qs IHs sc cur base Hfr ce (pc + 2) nv sn cs n1 s1 Es Hats rho v (SV v :: st) fk vs n n0 o g HE Hn ltac:(lia) Hlen) as HA.
     cbv zeta in HA.
-    refine (bind_std (fun w => den qb ((x, w) :: rho) v) (fun _ => True) sc (pc + 2 + length cs) (SV v :: st) (base + nv) (base + n1)
+    refine (bind_std (fun w => den qb ((x, BV w) :: rho) v) (fun _ => True) sc (pc + 2 + length cs) (SV v :: st) (base + nv) (base + n1)
               (pcb + length cb) st fk (base + nv) (base + nv') o ko K K0 ce n0 (ctr g) rho (base + nv) P
               (fun i => base + n1 <= i < base + nv') ce HS (le_n _) ltac:(lia) Hko Hoo (le_n _) ltac:(lia) Hkl HK1 HK2 HK0 _ eq_refl _ _ _ (den qs rho v)
               (N sc pc (SV v :: st) fk vs n o g) _ _ (le_n _)).
@@ -917,18 +931,18 @@ Proof.
   { intros y vs' n' g' Hy. one st_popfork. one bt_label.
     destruct y as [[| |m]|]; simpl; try apply steps_refl.
     simpl in Hy. destruct (Nat.eqb_spec m n); [lia|apply steps_refl]. }
-  cbn [Den.den]. destruct (den qb rho v) as [ws fin]. cbn [fst snd] in HB.
+  cbn [Den.den1]. destruct (den qb rho v) as [ws fin]. cbn [fst snd] in HB.
   match goal with |- G _ (fst ?r) _ _ => assert (Hf : fst r = ws)
-    by (destruct fin as [[e0|l']|]; [|destruct (N.eqb l l')|]; reflexivity); rewrite Hf end.
+    by (destruct fin as [[e0|l'|]|]; [|destruct (N.eqb l l')| |]; reflexivity); rewrite Hf end.
   assert (Hfx : Forall (fun f => g_ctr c <= f_ctr f) [fx]) by (constructor; [simpl; lia|constructor]).
   refine ((fun Hm => G_ctx nt code cx c [fx] (fun _ _ _ => True) _ _ _ _ eq_refl eq_refl eq_refl eq_refl _ _ _ _ (le_n _) (le_n _) Hfx _ _ _ Hm Hm _ _ I HB) _); auto.
   - simpl; intros; lia.
   - intros o0 p q Kp. exact (keepS_K _ _ _ _ Kp).
   - simpl; lia.
   - intros y vs' n' g' _ Hy. exists vs', n', g'. split; [apply Htr; auto|]. split; [apply chg_refl|cl].
-  - intros z1 _ (e & vs4 & n4 & g4 & St4 & Ch4 & Le4 & HE4 & ((E4 & Hn4 & Hl4 & HP4) & Hlab)). simpl in St4, Ch4. cbn [g_sc g_ce cx] in HE4.
+  - intros z1 _ HT. tend_inv HT as (e & vs4 & n4 & g4 & St4 & Ch4 & Le4 & HE4 & ((E4 & Hn4 & Hl4 & HP4) & Hlab)). simpl in St4, Ch4. cbn [g_sc g_ce cx] in HE4.
     assert (Ch4' : chg (g_own c) (vars_of z1) vs4) by (eapply chg_mono; [|exact Ch4]; simpl; intros; lia).
-    destruct fin as [[e0|l']|]; cbn [fst snd] in *; simpl in HE4.
+    destruct fin as [[e0|l'|]|]; cbn [fst snd] in *; simpl in HE4; [| |contradiction|].
     + (* error *) subst e. exists (Some (VE (err_of e0))), vs4, n4, g4.
       split; [eapply steps_trans; [exact St4|apply Htr; destruct e0; simpl; auto]|]. split; [exact Ch4'|]. split; [exact Le4|]. split; [reflexivity|exact HP4].
     + (* break *) destruct HE4 as (y & k & id & Hk & Hik & Hid & ->). simpl in Hk. rewrite N.eqb_sym in Hk.
@@ -1025,10 +1039,10 @@ Proof.
      | fin => Tend c fin P z1
      end).
   assert (HT : forall z1, ctr g <= ctr (gx_of z1) /\ Tend ca0 (snd (den qa rho v)) Pa z1 -> Tfin z1).
-  { intros z1 [Hz (e & vs4 & n4 & g4 & St4 & Ch4 & Le4 & HE4 & (E4 & Hn4 & Hl4 & HP4))]. simpl in St4, Ch4. cbn [g_sc g_ce ca0 ctx_of] in HE4.
-    unfold Tfin. split; [exact Hz|].
+  { intros z1 [Hz HT0]. unfold Tfin. split; [exact Hz|].
+    tend_inv HT0 as (e & vs4 & n4 & g4 & St4 & Ch4 & Le4 & HE4 & (E4 & Hn4 & Hl4 & HP4)). simpl in St4, Ch4. cbn [g_sc g_ce ca0 ctx_of] in HE4.
     assert (Ch4' : chg (g_own c) (vars_of z1) vs4) by (eapply chg_mono; [|exact Ch4]; simpl; intros; lia).
-    destruct (snd (den qa rho v)) as [[e0|l']|]; simpl in HE4.
+    destruct (snd (den qa rho v)) as [[e0|l'|]|]; simpl in HE4; [| |contradiction|].
     - subst e. destruct h as [h'|].
       + eapply G_pre; [eapply steps_trans; [exact St4|one st_popfork; one bt_trybegin_catch; apply steps_refl]|exact Ch4'|exact Le4|].
         pose proof (IHh sc cur base Hfr ce hp n1 s1 ch nv' sn' Hh Hath rho (errval e0) st fk vs4 n4 n0 o ko g4 K K0 P) as HB. cbv zeta in HB.
@@ -1067,7 +1081,7 @@ Proof.
     refine (G2_sub nt code (ctx_of sc (hp + length ch) st fk (base + nv) (base + n1) o ko K K0 ce n0 (ctr g)) c _ _ _ _
               eq_refl eq_refl eq_refl eq_refl _ _ _ (le_n _) (le_n _) (le_n _) (fun s H => H) (fun s H => H) _ _ HG); auto.
     simpl; intros; lia. }
-  clear HA HA'. cbn [Den.den].
+  clear HA HA'. cbn [Den.den1].
   assert (HG2 : forall Tw', G2 c (fst (den qa rho v))
             (fun z1 => match snd (den qa rho v) with
                        | Some (XErr e0) => match h with
@@ -1076,7 +1090,7 @@ Proof.
                        | fin => Tend c fin P z1 end) Tw' (N sc (S pc) (SV v :: st) (fb :: fk) vs n o g)).
   { intros Tw'. eapply G2_impl; [| |exact (HG Tw')]; [intros z1 [_ H]; exact H|auto]. }
   clear HG.
-  destruct (den qa rho v) as [ws [[e0|l']|]]; cbn [fst snd] in *; try exact (HG2 _).
+  destruct (den qa rho v) as [ws [[e0|l'|]|]]; cbn [fst snd] in *; try exact (HG2 _).
   destruct h as [h'|]; [|exact (HG2 _)].
   destruct (den h' rho (errval e0)) as [wh fh] eqn:Edh. cbn [seq fst snd] in *. apply G_app. exact (HG2 _).
 Qed.
@@ -1094,12 +1108,12 @@ Proof.
   destruct (comp q ce cur (pc + 3) (S nv) sn) as [[[cq' n1] s1]|] eqn:Eq; [|discriminate].
   destruct (comp_mono _ _ _ _ _ _ _ _ _ Eq) as [M1 _].
   std_facts. pose proof (conj S1 S2) as HS. destruct (stable_sub _ _ _ _ _ _ _ _ _ _ _ _ _ _ HS) as [S1' S2'].
-  cbn [Den.den].
+  cbn [Den.den1].
   destruct (array_fold q) as [cs|] eqn:Ef.
   - (* folded to a constant *)
     inversion Hc; subst cq nv' sn'. clear Hc. uncons Hat A0.
     assert (Ha : acl q = Some cs) by (destruct q; simpl in Ef; auto; discriminate).
-    rewrite (acl_sound nt _ _ Ha). cbn [fst snd].
+    rewrite (acl_sound nt _ _ _ Ha). cbn [fst snd].
     eapply G_single; [subst c; simpl; replace (pc + 1) with (S pc) by lia; one st_const; apply steps_refl
                      |apply chg_refl|cl|simpl; lia|].
     intros; eapply S2; eauto.
@@ -1151,7 +1165,8 @@ Proof.
                       |eapply chg_update; [exact U'|simpl; auto]|cl|reflexivity|].
         apply Hin. split; [eapply Jstd_update; eauto; lia|exact UN'].
       - split; [split; auto|exact UN]. }
-    simpl in HG. destruct HG as (s' & St & Ch & Le & (e & vs4 & n4 & g4 & St4 & Ch4 & Le4 & HE4 & (HP4 & Hg4))).
+    destruct HG as (s' & St & Ch & Le & HT). simpl in Ch, Le.
+    destruct (Tend_inv _ _ _ _ _ _ HT) as [->|(e & vs4 & n4 & g4 & St4 & Ch4 & Le4 & HE4 & (HP4 & Hg4))]; [cbn [fst snd]; apply G_fuel|].
     simpl in St4, Ch4. cbn [g_sc g_ce c0 ctx_of] in HE4.
     assert (Ch' : chg (g_own c) vs1 vs4) by (eapply chg_trans; eauto).
     assert (Le' : cle n g n4 g4) by (eapply cle_trans; eauto).
@@ -1246,7 +1261,7 @@ Proof.
                       |apply chg_refl|cl|reflexivity|apply Hin; split; auto].
     - split; [exact HJ1|exact UN]. }
   (* from the base with the fork of // to the base below it *)
-  cbn [Den.den]. rewrite Ed. fold ts.
+  cbn [Den.den1]. rewrite Ed. fold ts.
   set (Tfin := fun z1 : state =>
      match fin with
      | Some x => Tend c (Some x) P z1
@@ -1262,9 +1277,9 @@ Proof.
               eq_refl eq_refl eq_refl eq_refl (fun _ H => H) (fun _ _ _ H => H) (fun o a b H => keepS_K _ _ _ _ H) (le_n _) (le_n _) (le_n _) Hfx _ _ _ Hm Hm w0 st0 (le_n _) HG) _) end;
       try (intros; unfold cle in *; simpl in *; lia).
     - intros x vs' n' g' _ _. exists vs', n', g'. split; [eapply fork_transparent; eauto|]. split; [apply chg_refl|cl].
-    - intros z1 Hz (e & vs4 & n4 & g4 & St4 & Ch4 & Le4 & HE4 & ((E4 & Hn4 & Hl4 & HP4) & Hg4)). simpl in St4, Ch4. cbn [g_sc g_ce c0 ctx_of] in HE4.
-      unfold Tfin. destruct fin as [x|]; simpl in HE4.
-      + destruct (encR_some _ _ _ _ _ HE4) as (y & ->).
+    - intros z1 Hz HT. unfold Tfin. tend_inv HT as (e & vs4 & n4 & g4 & St4 & Ch4 & Le4 & HE4 & ((E4 & Hn4 & Hl4 & HP4) & Hg4)). simpl in St4, Ch4. cbn [g_sc g_ce c0 ctx_of] in HE4.
+      destruct fin as [x|]; simpl in HE4.
+      + destruct (encR_some _ _ _ _ _ HE4) as (y & ->). apply Tend_of.
         exists (Some y), vs4, n4, g4. split; [eapply steps_trans; [exact St4|eapply fork_transparent; eauto]|].
         split; [exact Ch4|]. split; [exact Le4|]. split; [exact HE4|exact HP4].
       + subst e. unfold Jg, gf in Hg4.
@@ -1372,25 +1387,25 @@ Lemma upd_inner : forall qu, Impl qu -> forall sc cur base, frameOK sc cur base 
   envOK sc ce rho vs n0 lim -> n0 <= n -> base + n3 <= o -> o <= length vs -> nth_error vs (base + accs) = Some (SV a) ->
   exists vs1, update vs (base + n2) (SV w) = Some vs1 /\
   steps (N sc p2 (SV w :: st) fk vs n o g) (N sc (S (S p2)) (SV a :: st) fk vs1 n o g) /\
-  envOK sc (add_var ce x (cur, n2)) ((x, w) :: rho) vs1 n0 (base + S n2) /\ nth_error vs1 (base + accs) = Some (SV a) /\
+  envOK sc (add_var ce x (cur, n2)) ((x, BV w) :: rho) vs1 n0 (base + S n2) /\ nth_error vs1 (base + accs) = Some (SV a) /\
   let c1 := ctx_of sc (S (S p2) + length cu) st fk (base + S n2) (base + n3) o o
               (fun i => base + S n2 <= i < base + n3 \/ kept sc (add_var ce x (cur, n2)) i) (fun _ => False) (add_var ce x (cur, n2)) n0 (ctr g) in
-  G c1 (fst (den qu ((x, w) :: rho) a)) (Tend c1 (snd (den qu ((x, w) :: rho) a)) (fun _ _ _ => True))
+  G c1 (fst (den qu ((x, BV w) :: rho) a)) (Tend c1 (snd (den qu ((x, BV w) :: rho) a)) (fun _ _ _ => True))
                (N sc (S (S p2)) (SV a :: st) fk vs1 n o g).
 Proof.
-  intros qu IHu sc cur base Hfr ce x n2 p2 sn cu n3 sn' Eu Hatu accs A0 A1 rho w a st fk vs n n0 o g lim Hacc Hlim HE Hn Ho Hl Ha. pose proof (proj1 Hfr) as Hcur.
+  intros qu IHu sc cur base Hfr ce x n2 p2 sn cu n3 sn' Eu Hatu accs A0 A1 rho w a st fk vs n n0 o g lim Hacc Hlim HE Hn Ho Hl Ha. pose proof (frameOK_cur _ _ _ Hfr) as Hcur.
   destruct (comp_mono _ _ _ _ _ _ _ _ _ Eu) as [M _].
   destruct (update_some vs (base + n2) (SV w)) as [vs1 U]; [lia|]. exists vs1. split; [exact U|].
   destruct (update_spec _ _ _ _ U) as (UL & UN & UO).
   assert (Ha1 : nth_error vs1 (base + accs) = Some (SV a)) by (rewrite UO; [auto|lia]).
-  assert (HE1 : envOK sc (add_var ce x (cur, n2)) ((x, w) :: rho) vs1 n0 (base + S n2)).
+  assert (HE1 : envOK sc (add_var ce x (cur, n2)) ((x, BV w) :: rho) vs1 n0 (base + S n2)).
   { eapply envOK_add_var; [|apply Hcur|lia|exact UN].
     eapply envOK_lim; [|instantiate (1 := lim); lia].
     eapply envOK_same; [exact HE|]. intros k Hk. symmetry. apply UO.
     pose proof (kept_lt _ _ _ _ _ _ _ HE Hk). lia. }
   split; [one st_store; one st_load; apply steps_refl|]. split; [exact HE1|]. split; [exact Ha1|].
   intros c1.
-  apply (impl_inner qu IHu sc cur base Hfr (add_var ce x (cur, n2)) (S (S p2)) (S n2) sn cu n3 sn' Eu Hatu ((x, w) :: rho) a st fk vs1 n n0 o g); auto; try lia.
+  apply (impl_inner qu IHu sc cur base Hfr (add_var ce x (cur, n2)) (S (S p2)) (S n2) sn cu n3 sn' Eu Hatu ((x, BV w) :: rho) a st fk vs1 n n0 o g); auto; try lia.
 Qed.
 
 (* the update phase of reduce/foreach for one source output w: store $x; load acc; update; then, for every
@@ -1403,7 +1418,7 @@ Lemma upd_level : forall qu, Impl qu -> forall sc cur base, frameOK sc cur base 
   forall rho w st fk (K K0C : nat -> Prop) n0 hi o ko (P : list sv -> nat -> gx -> Prop) pcx (fbC : jv -> jv -> list jv * option exn * jv)
          (ownbC0 : nat -> Prop) oe y (JfC : jv -> list sv -> nat -> gx -> Prop),
   let ce3 := add_var ce x (cur, n2) in
-  let rho3 := (x, w) :: rho in
+  let rho3 := (x, BV w) :: rho in
   let lo := base + nv in
   let P3 := Jstd sc ce rho n0 lo o P in
   let cC := {| g_sc := sc; g_pc := pcx; g_st := st; g_base := fk; g_own := fun i => i = lo \/ base + S n2 <= i < hi \/ oe <= i;
@@ -1427,7 +1442,7 @@ Lemma upd_level : forall qu, Impl qu -> forall sc cur base, frameOK sc cur base 
     (N sc p2 (SV w :: st) fk vs n oe y).
 Proof.
   intros qu IHu sc cur base Hfr ce x n2 p2 sn cu n3 sn' Eu Hatu nv A0 A1 rho w st fk K K0C n0 hi o ko P pcx fbC ownbC0 oe y JfC
-         ce3 rho3 lo P3 cC cOut JC Hnv Hhi Hko Hoo Hoe HK1 HK2 Hkl S1' HobC HJJ HJf1 HbodyC a vs n Hj Ha Hlen os xx g' Ef. pose proof (proj1 Hfr) as Hcur.
+         ce3 rho3 lo P3 cC cOut JC Hnv Hhi Hko Hoo Hoe HK1 HK2 Hkl S1' HobC HJJ HJf1 HbodyC a vs n Hj Ha Hlen os xx g' Ef. pose proof (frameOK_cur _ _ _ Hfr) as Hcur.
   destruct (comp_mono _ _ _ _ _ _ _ _ _ Eu) as [M _]. pose proof Hj as (E & Hn & Hl & Hp).
   destruct (upd_inner qu IHu sc cur base Hfr ce x n2 p2 sn cu n3 sn' Eu Hatu nv A0 A1 rho w a st fk vs n n0 oe y lo Hnv ltac:(unfold lo; lia)
               E Hn ltac:(lia) Hlen Ha) as (vs1 & U & St1 & HE1 & Ha1 & HU). cbv zeta in HU.
@@ -1462,7 +1477,7 @@ Proof.
   - simpl; intros; lia.
   - intros o3 p q Kp. exact Kp.
   - intros p q Kp. exact Kp.
-  - intros s0 (e & vs4 & n4 & g4 & St4 & Ch4 & Le4 & HE4 & HJ4).
+  - intros s0 HT. tend_inv HT as (e & vs4 & n4 & g4 & St4 & Ch4 & Le4 & HE4 & HJ4). apply Tend_of.
     exists e, vs4, n4, g4. split; [exact St4|]. split; [eapply chg_mono; [|exact Ch4]; simpl; intros; lia|].
     split; [exact Le4|]. split; [eapply encR_lbls; [|exact HE4]; reflexivity|exact HJ4].
 Qed.
@@ -1496,8 +1511,8 @@ Proof.
   set (pend := S (S (S (S q3)))) in *.
   set (lo := base + nv) in *. set (hi := base + n3) in *.
   set (c := ctx_of sc pend st fk lo hi o ko K K0 ce n0 (ctr g)).
-  cbn [Den.den].
-  set (updf := fun w acc => den qu ((x, w) :: rho) acc).
+  cbn [Den.den1].
+  set (updf := fun w acc => den qu ((x, BV w) :: rho) acc).
   match goal with |- G _ (fst (bind _ ?f)) _ _ => set (f0 := f) end.
   pose proof (impl_inner qi IHi sc cur base Hfr ce (S pc) (S nv) sn ci n1 s1 Ec Hati rho v (SV v :: st) fk vs n n0 o g
                 ltac:(eapply envOK_lim; eauto; lia) Hn ltac:(unfold hi in *; lia) Hlen) as HA. cbv zeta in HA. fold q1 in HA.
@@ -1672,9 +1687,9 @@ Proof.
   set (pend := S (S q3) + length cx) in *.
   set (lo := base + nv) in *. set (hi := base + nv') in *.
   set (c := ctx_of sc pend st fk lo hi o ko K K0 ce n0 (ctr g)).
-  cbn [Den.den].
-  set (updf := fun w acc => den qu ((x, w) :: rho) acc).
-  set (extf := fun w u => match ext with Some e => den e ((x, w) :: rho) u | None => ([u], None) end).
+  cbn [Den.den1].
+  set (updf := fun w acc => den qu ((x, BV w) :: rho) acc).
+  set (extf := fun w u => match ext with Some e => den e ((x, BV w) :: rho) u | None => ([u], None) end).
   match goal with |- G _ (fst (bind _ ?f)) _ _ => set (f0 := f) end.
   pose proof (impl_inner qi IHi sc cur base Hfr ce (S pc) (S nv) sn ci n1 s1 Ec Hati rho v (SV v :: st) fk vs n n0 o g
                 ltac:(eapply envOK_lim; eauto; lia) Hn ltac:(unfold hi in *; lia) Hlen) as HA. cbv zeta in HA. fold q1 in HA.
@@ -1779,11 +1794,11 @@ Proof.
         assert (Hnk : ~ kept sc ce3 lo).
         { intros Hk. apply (kept_add_var _ _ _ _ _ _ (Hcur n2)) in Hk. destruct Hk as [Hk|Hk]; [unfold lo in *; lia|apply Hkl in Hk; lia]. }
         set (P3 := Jstd sc ce rho n0 lo o P) in *.
-        assert (HJ4 : Jstd sc ce3 ((x, w) :: rho) n0 (base + S n2) o2 P3 vs4 m3 z3).
+        assert (HJ4 : Jstd sc ce3 ((x, BV w) :: rho) n0 (base + S n2) o2 P3 vs4 m3 z3).
         { eapply Jstd_update_gen; [exact Hj3|exact U4|exact Hnk|].
           eapply (Jstd_update _ _ _ _ _ _ lo hi); [exact S1'|exact Hp3|exact U4|unfold lo, hi; lia|lia]. }
         eapply G_pre; [one st_dup; one st_store; apply steps_refl|eapply chg_update; [exact U4|simpl; auto]|cl|].
-        set (JC := fun a' m (y : gx) => Jstd sc ce3 ((x, w) :: rho) n0 (base + S n2) o2 P3 a' m y /\ nth_error a' lo = Some (SV u)).
+        set (JC := fun a' m (y : gx) => Jstd sc ce3 ((x, BV w) :: rho) n0 (base + S n2) o2 P3 a' m y /\ nth_error a' lo = Some (SV u)).
         assert (JCk : forall p q m y m' y', JC p m y -> keepX K p q -> cle m y m' y' -> JC q m' y').
         { intros p q m y m' y' [(Eq & Hnq & Hlq & Hpq) Hgq] Kp Hm. split.
           - split; [eapply envOK_keep; [exact Eq|exact Kp|]|].
@@ -1803,7 +1818,7 @@ Proof.
                                g_keep := K; g_keep0 := KC; g_ce := ce3; g_n0 := n0; g_off := o2; g_koff := ko; g_ctr := ctr z2 |}
                             (fun i => i = lo \/ base + n3 <= i < hi) ce3 fk3 o3 (ctr z3)).
           apply (impl_body e IHx sc cur base Hfr ce3 (S (S q3)) n3 s3 cx nv' sn' Hx Hatx cbx
-                   ((x, w) :: rho) u vs4 m3 o3 z3 PD); subst cbx; simpl.
+                   ((x, BV w) :: rho) u vs4 m3 o3 z3 PD); subst cbx; simpl.
           -- reflexivity.
           -- reflexivity.
           -- reflexivity.
@@ -1856,7 +1871,7 @@ Lemma G_arg_closure : forall q, Impl q -> forall sc cur base, frameOK sc cur bas
     G cx (fst (den q rho v)) (Tend cx (snd (den q rho v)) P) (N sc p (g_st cx) (g_base cx) vs n o g).
 Proof.
   intros q IH sc cur base Hfr ce p sn cb nvc s1 k Hlt Ec Hat cx rho v P vs n o g Hsc Hpc Hoff Hlb Hown HK2 HK0 Hko HE Hn Hlen Hct Hv HP1 HP2 HP.
-  pose proof (proj1 Hfr) as Hcur.
+  pose proof (frameOK_cur _ _ _ Hfr) as Hcur.
   replace (p + 2) with (S (S p)) in * by lia.
   set (pr := S (S p) + length cb) in *.
   replace (pr + 1) with (S pr) in Hat by lia.
@@ -1942,10 +1957,10 @@ Lemma G_arg : forall q, Impl q -> forall sc cur base, frameOK sc cur base ->
     G cx (fst (den q rho v)) (Tend cx (snd (den q rho v)) P) (N sc p (g_st cx) (g_base cx) vs n o g).
 Proof.
   intros q IH sc cur base Hfr ce p sn cb nvc s1 k Hlt Ec Hat cx rho v P vs n o g Hsc Hpc Hoff Hlb Hown HK2 HK0 Hko HE Hn Hlen Hct Hv HP1 HP2 HP.
-  pose proof (proj1 Hfr) as Hcur.
+  pose proof (frameOK_cur _ _ _ Hfr) as Hcur.
   destruct cb as [|x [|x2 r]].
   - (* empty body: load v *)
-    destruct (comp_nil _ _ _ _ _ _ _ _ Ec) as (E1 & -> & ->). rewrite (emptycode_den nt _ E1). cbn [fst snd].
+    destruct (comp_nil _ _ _ _ _ _ _ _ Ec) as (E1 & -> & ->). rewrite (emptycode_den nt _ _ E1). cbn [fst snd].
     simpl in Hat, Hpc. uncons Hat A0.
     eapply G_single with (o3 := o); [rewrite Hsc, Hpc; replace (p + 1) with (S p) by lia;
                        eapply steps_step; [eapply st_load; [exact A0|apply Hcur|exact Hv]|apply steps_refl]
@@ -1953,7 +1968,7 @@ Proof.
     intros vs2 n2 g2 Kp L2. eapply HP2; eauto.
   - destruct (Nat.eqb_spec nvc 0) as [->|Hnz].
     + (* one instruction that owns no variable *)
-      destruct (comp_single nt _ _ _ _ _ _ _ _ Ec) as [Hs Hd]. rewrite Hd.
+      destruct (comp_single nt _ _ _ _ _ _ _ _ _ Ec) as [Hs Hd]. rewrite Hd.
       unfold arg_code in Hat, Hpc. simpl Nat.eqb in Hat, Hpc. cbv iota in Hat, Hpc.
       destruct x; try discriminate Hs; simpl in Hat, Hpc.
       * (* const *) uncons Hat A0. cbn [den1 fst snd].
@@ -2012,7 +2027,7 @@ Proof.
   set (Jg := fun p : list sv => nth_error p (base + nv) = Some (SV v)).
   assert (HJgK : forall p q, Jg p -> keepX K p q -> Jg q).
   { intros p q Hg C. unfold Jg in *. rewrite <- Hg. symmetry. apply C. apply HK1. lia. }
-  cbn [Den.den].
+  cbn [Den.den1].
   set (f := fun r => bind (den a rho v) (fun l => of_sum (n_fn2 nt op v l r))).
   pose proof HJ1 as (E1 & Hn1 & Hl1 & Hp1).
   refine (bind_std f Jg sc pA st (base + S nv) (base + S nv) (S (S pL)) st fk (base + nv) (base + S nv) o ko K K0 ce n0 (ctr g) rho (base + nv) P
